@@ -78,40 +78,122 @@ fn serve<S: Read + Write>(mut s: S, idx: usize, mode: Mode, contacts: Contacts) 
     }
 }
 
-/// TCP listener on `addr` (port 0 = ephemeral); returns the bound port, or None if it cannot
-/// bind. A connection is registered as a contact by the accept loop itself, in accept order,
-/// before its serving thread starts.
-pub fn tcp_listener(addr: &str, name: &str, mode: Mode, contacts: Contacts) -> Option<u16> {
-    let l = std::net::TcpListener::bind(addr).ok()?;
-    let port = l.local_addr().ok()?.port();
-    let name = name.to_string();
-    std::thread::spawn(move || {
-        for s in l.incoming().flatten() {
-            let _ = s.set_read_timeout(Some(Duration::from_secs(20)));
-            let idx = register(&contacts, &name, s.peer_addr().map(|a| a.to_string()).unwrap_or_default());
-            let c = contacts.clone();
-            std::thread::spawn(move || serve(s, idx, mode, c));
-        }
-    });
-    Some(port)
+enum Lst {
+    Tcp(std::net::TcpListener),
+    Unix(std::os::unix::net::UnixListener),
 }
 
-pub fn unix_listener(path: &str, name: &str, mode: Mode, contacts: Contacts) -> bool {
-    let _ = std::fs::remove_file(path);
-    let l = match std::os::unix::net::UnixListener::bind(path) {
-        Ok(l) => l,
-        Err(_) => return false,
-    };
-    let name = name.to_string();
-    std::thread::spawn(move || {
-        for s in l.incoming().flatten() {
-            let _ = s.set_read_timeout(Some(Duration::from_secs(20)));
-            let idx = register(&contacts, &name, String::new());
-            let c = contacts.clone();
-            std::thread::spawn(move || serve(s, idx, mode, c));
+/// All listeners of one environment, served by one accepting thread ("registrar") that polls
+/// them without blocking. A connection is registered as a contact by that thread, before its
+/// serving thread starts. The registrar also owns a *fence* listener: when a fence connection
+/// arrives it first accepts everything that is waiting on every other listener and only then
+/// answers the fence — connections whose handshake had completed before the fence connection
+/// was made are therefore registered by the time the fence returns.
+pub struct Registrar {
+    contacts: Contacts,
+    listeners: Vec<(Lst, String, Mode)>,
+}
+
+#[derive(Clone, Debug)]
+pub struct Fence(String);
+
+impl Registrar {
+    pub fn new(contacts: Contacts) -> Registrar {
+        Registrar { contacts, listeners: vec![] }
+    }
+
+    /// TCP listener on `addr` (port 0 = ephemeral); returns the bound port, or None if it cannot bind.
+    pub fn tcp(&mut self, addr: &str, name: &str, mode: Mode) -> Option<u16> {
+        let l = std::net::TcpListener::bind(addr).ok()?;
+        let port = l.local_addr().ok()?.port();
+        l.set_nonblocking(true).ok()?;
+        self.listeners.push((Lst::Tcp(l), name.to_string(), mode));
+        Some(port)
+    }
+
+    pub fn unix(&mut self, path: &str, name: &str, mode: Mode) -> bool {
+        let _ = std::fs::remove_file(path);
+        match std::os::unix::net::UnixListener::bind(path) {
+            Ok(l) => {
+                if l.set_nonblocking(true).is_err() {
+                    return false;
+                }
+                self.listeners.push((Lst::Unix(l), name.to_string(), mode));
+                true
+            }
+            Err(_) => false,
         }
-    });
-    true
+    }
+
+    /// Start the accepting thread; the returned handle is the fence.
+    pub fn start(self) -> Fence {
+        let fl = std::net::TcpListener::bind("127.0.0.1:0").expect("fence listener");
+        let faddr = fl.local_addr().expect("fence address").to_string();
+        fl.set_nonblocking(true).expect("nonblocking");
+        let Registrar { contacts, listeners } = self;
+        std::thread::spawn(move || {
+            // accept everything that is waiting on the ordinary listeners; true if anything was
+            let drain = |contacts: &Contacts| -> bool {
+                let mut any = false;
+                for (l, name, mode) in &listeners {
+                    loop {
+                        match l {
+                            Lst::Tcp(t) => match t.accept() {
+                                Ok((s, peer)) => {
+                                    any = true;
+                                    let _ = s.set_nonblocking(false);
+                                    let _ = s.set_read_timeout(Some(Duration::from_secs(20)));
+                                    let idx = register(contacts, name, peer.to_string());
+                                    let (c, m) = (contacts.clone(), *mode);
+                                    std::thread::spawn(move || serve(s, idx, m, c));
+                                }
+                                Err(_) => break,
+                            },
+                            Lst::Unix(u) => match u.accept() {
+                                Ok((s, _)) => {
+                                    any = true;
+                                    let _ = s.set_nonblocking(false);
+                                    let _ = s.set_read_timeout(Some(Duration::from_secs(20)));
+                                    let idx = register(contacts, name, String::new());
+                                    let (c, m) = (contacts.clone(), *mode);
+                                    std::thread::spawn(move || serve(s, idx, m, c));
+                                }
+                                Err(_) => break,
+                            },
+                        }
+                    }
+                }
+                any
+            };
+            loop {
+                let mut any = drain(&contacts);
+                while let Ok((mut f, _)) = fl.accept() {
+                    any = true;
+                    // everything connected before this fence connection is in some accept queue by now
+                    drain(&contacts);
+                    let _ = f.set_nonblocking(false);
+                    let _ = f.write_all(b"k");
+                }
+                if !any {
+                    std::thread::sleep(Duration::from_micros(150));
+                }
+            }
+        });
+        Fence(faddr)
+    }
+}
+
+impl Fence {
+    /// Returns when every connection made to the environment's listeners so far has been registered.
+    pub fn wait(&self) {
+        let mut s = std::net::TcpStream::connect(&self.0).expect("verif-machinery: fence listener gone");
+        let _ = s.set_read_timeout(Some(Duration::from_secs(20)));
+        let mut b = [0u8; 1];
+        match s.read(&mut b) {
+            Ok(1) => {}
+            other => panic!("verif-machinery: the fence was not answered within 20 s ({:?})", other),
+        }
+    }
 }
 
 /// serve one pre-connected stream (the other end is handed to the client through std_stream);
@@ -119,72 +201,6 @@ pub fn unix_listener(path: &str, name: &str, mode: Mode, contacts: Contacts) -> 
 pub fn serve_stream<S: Read + Write + Send + 'static>(s: S, name: &str, mode: Mode, contacts: Contacts) {
     let idx = register(&contacts, name, String::new());
     std::thread::spawn(move || serve(s, idx, mode, contacts));
-}
-
-pub const FENCE: &[u8] = b"FENCE-not-ldap";
-
-#[derive(Clone, Debug)]
-pub enum FenceTarget {
-    Tcp(String),
-    Unix(String),
-}
-
-/// Wait until every connection made to the listed listeners so far has been registered: one
-/// marker connection per listener (registration is in accept order), recognised by the
-/// client's address (TCP) or by the bytes it sends (Unix); recognised markers are relabelled
-/// "fence" so that nobody counts them as contacts.
-pub fn fence(targets: &[FenceTarget], contacts: &Contacts) {
-    for t in targets {
-        let t0 = std::time::Instant::now();
-        // (client ports are reused over a run: only contacts registered from now on can be the marker)
-        let from = contacts.lock().unwrap().len();
-        match t {
-            FenceTarget::Tcp(a) => {
-                let s = match std::net::TcpStream::connect(a) {
-                    Ok(s) => s,
-                    Err(_) => continue,
-                };
-                let me = s.local_addr().map(|x| x.to_string()).unwrap_or_default();
-                loop {
-                    {
-                        let mut c = contacts.lock().unwrap();
-                        if let Some(x) = c.iter_mut().skip(from).find(|x| x.peer == me) {
-                            x.listener = "fence".into();
-                            break;
-                        }
-                    }
-                    if t0.elapsed() > Duration::from_secs(10) {
-                        panic!("verif-machinery: the fence connection to {} was not registered within 10 s", a);
-                    }
-                    std::thread::sleep(Duration::from_micros(100));
-                }
-                drop(s);
-            }
-            FenceTarget::Unix(p) => {
-                let mut s = match std::os::unix::net::UnixStream::connect(p) {
-                    Ok(s) => s,
-                    Err(_) => continue,
-                };
-                if s.write_all(FENCE).is_err() {
-                    continue;
-                }
-                loop {
-                    {
-                        let mut c = contacts.lock().unwrap();
-                        if let Some(x) = c.iter_mut().skip(from).find(|x| x.bytes.starts_with(FENCE)) {
-                            x.listener = "fence".into();
-                            break;
-                        }
-                    }
-                    if t0.elapsed() > Duration::from_secs(10) {
-                        panic!("verif-machinery: the fence connection to {} was not registered within 10 s", p);
-                    }
-                    std::thread::sleep(Duration::from_micros(100));
-                }
-                drop(s);
-            }
-        }
-    }
 }
 
 /// Run `f` on a helper thread; None if it has not returned within `limit` (the thread is left behind).
